@@ -1,5 +1,6 @@
 import SamlVerif.Driver.Proto
 import SamlVerif.Model.Duration
+import SamlVerif.Model.Time
 
 namespace SamlVerif.Driver.Codec
 open SamlVerif.Proto
@@ -20,7 +21,19 @@ def runDurParse : P String := do
   let s ← str
   pure (renderInt (Duration.parse s.toList))
 
+/-- `tmarshal <ns>`: `RelaxedTime.MarshalText` of the instant (given as seconds and nanoseconds since the epoch) -/
+def runTMarshal : P String := do
+  let sec ← int; let nsec ← int
+  pure ("ok " ++ encStr (String.ofList (TimeM.marshal (sec * 1000000000 + nsec))))
+
+/-- `tparse <text>`: `RelaxedTime.UnmarshalText`, result in milliseconds since the epoch -/
+def runTParse : P String := do
+  let s ← str
+  match TimeM.unmarshal s.toList with
+  | some ms => pure ("ok " ++ toString ms)
+  | none => pure "err site=time-parse"
+
 def handlers : List (String × P String) :=
-  [("durrt", runDurRT), ("durparse", runDurParse)]
+  [("durrt", runDurRT), ("durparse", runDurParse), ("tmarshal", runTMarshal), ("tparse", runTParse)]
 
 end SamlVerif.Driver.Codec
